@@ -153,16 +153,37 @@ class ClockPlugin(Plugin):
                     g(now)
                 except Exception as e:
                     mon.viol("C06", "present_refused", {"market": m.name, "getter": g.__name__, "now": now, "exc": repr(e)})
+            lo = max(0, now - 1)
+            future_forms = (
+                ("ascending range", range(lo, now + 2)),
+                ("descending range", range(now + 1, lo - 1, -1)),
+                ("descending range far", range(now + 3, now, -1)),
+                ("stepped range", range(0, now + 4, 3) if (now + 3) % 3 == 0 or True else None),
+                ("list future last", [lo, now, now + 1]),
+                ("list future first", [now + 2, now, lo]),
+                ("tuple", (now + 1,)),
+                ("generator", (t for t in (now, now + 1))),
+            )
+            for label, form in future_forms:
+                if label == "stepped range" and not any(t > now for t in form):
+                    continue
+                for g in multi:
+                    arg = list(form) if False else form
+                    if label == "generator":
+                        arg = (t for t in (now, now + 1))
+                    try:
+                        g(arg)
+                    except Exception:
+                        continue
+                    mon.viol("C06", "future_not_refused", {"market": m.name, "getter": g.__name__, "now": now, "asked": label, "where": where})
             for g in multi:
                 try:
-                    g(range(max(0, now - 1), now + 2))
-                except Exception:
-                    pass
-                else:
-                    mon.viol("C06", "future_not_refused", {"market": m.name, "getter": g.__name__, "now": now, "asked": "range to now+1", "where": where})
-                try:
-                    g(range(0, now + 1))
-                    g(None)
+                    a = g(range(0, now + 1))
+                    b = g(None)
+                    c = g(range(now, -1, -1))
+                    d = g(list(range(0, now + 1)))
+                    if not (a == b == d and a == list(reversed(c))) and not any(isinstance(x, float) and x != x for x in a):
+                        mon.viol("C06", "getter_forms_disagree", {"market": m.name, "getter": g.__name__, "now": now})
                 except Exception as e:
                     mon.viol("C06", "present_refused", {"market": m.name, "getter": g.__name__, "now": now, "exc": repr(e)})
             mon.stat("future_probes")
